@@ -1087,3 +1087,14 @@ mod tests {
         }
     }
 }
+
+/// `read_payload_size` for the conformance harness (`--cfg litep2p_verif` only):
+/// `Ok((size, prefix_len))` or the name of the error.
+#[cfg(litep2p_verif)]
+pub fn verif_read_payload_size(buffer: &[u8]) -> Result<(usize, usize), &'static str> {
+    read_payload_size(buffer).map_err(|error| match error {
+        ReadError::Overflow => "overflow",
+        ReadError::NotEnoughBytes => "not-enough-bytes",
+        ReadError::DecodeError => "decode-error",
+    })
+}
